@@ -1,6 +1,6 @@
 SPECIFICATION MCSpec
 CONSTANTS
-  MaxSend = 4
+  MaxSend = 3
   Variants = {"onetime", "longterm"}
   Modes = {"single", "both"}
   PreKeyGuard = TRUE
